@@ -243,6 +243,7 @@ func (rc *RunCtx) SetupProto(tag string, quiet bool) *ProtoRun {
 			w = NewWorld(rc.EntropySeed("main"), rc.Ch)
 			rc.Worlds = append(rc.Worlds, w)
 		}
+		w.St.Edges = sc.Bool("edges")
 		w.Logf("world %s proto=%s", tag, pr.Proto)
 		return w
 	}
